@@ -694,12 +694,16 @@ impl BuiltInFunction {
                     s
                 };
 
-                if let Ok(num) = i32::from_str_radix(
-                    s,
-                    (*radix)
-                        .try_into()
-                        .with_context(|| format!("`{radix}` is an invalid radix"))?,
-                ) {
+                let radix: u32 = (*radix)
+                    .try_into()
+                    .with_context(|| format!("`{radix}` is an invalid radix"))?;
+
+                // `from_str_radix` panics outside of this range
+                if radix < 2 || radix > 36 {
+                    bail!("`{radix}` is an invalid radix: expected a base from 2 to 36")
+                }
+
+                if let Ok(num) = i32::from_str_radix(s, radix) {
                     Ok((
                         Some(Primitive::Int(num)),
                         None,
@@ -723,12 +727,16 @@ impl BuiltInFunction {
                     s
                 };
 
-                if let Ok(num) = i128::from_str_radix(
-                    s,
-                    (*radix)
-                        .try_into()
-                        .with_context(|| format!("`{radix}` is an invalid radix"))?,
-                ) {
+                let radix: u32 = (*radix)
+                    .try_into()
+                    .with_context(|| format!("`{radix}` is an invalid radix"))?;
+
+                // `from_str_radix` panics outside of this range
+                if radix < 2 || radix > 36 {
+                    bail!("`{radix}` is an invalid radix: expected a base from 2 to 36")
+                }
+
+                if let Ok(num) = i128::from_str_radix(s, radix) {
                     Ok((
                         Some(Primitive::BigInt(num)),
                         None,
